@@ -45,7 +45,7 @@ Proof. intro s. unfold window. rewrite Nat.min_id. reflexivity. Qed.
 Section Deflate.
   Variable bgzf : list N -> list N.
   Variable gunzip : list N -> inflated.
-  Hypothesis bgzf_magic : forall p, exists r, bgzf p = 31 :: 139 :: r.
+  Hypothesis bgzf_magic : forall p, exists r, bgzf p = (31 :: 139 :: r)%N.
   Hypothesis gunzip_prefix : forall p m, exists n, avail (gunzip (firstn m (bgzf p))) = firstn n p.
   Hypothesis gunzip_whole : forall p, gunzip (bgzf p) = mk_inflated p None.
   (* from the first 8 KiB of a BGZF stream the decoder gets the 4 bytes the detector asks for,
